@@ -123,9 +123,8 @@ def case_percell(ctx, res, p):
         return
     Jf = Kq @ np.linalg.inv(K + np.diag(D))
     Jd = Kq @ np.linalg.solve(M, K / D[None, :])
-    # (the full family propagates the stated sigma_i^2, the inducing-point family the floored variances max(sigma_i^2, jitter)
-    # of its whitened problem: they differ by at most the jitter per cell)
-    ref_f, ref_d = (Jf * (sg ** 2)[None, :]) @ Jf.T, (Jd * D[None, :]) @ Jd.T
+    # (both families propagate the stated sigma_i^2; the floor max(sigma_i^2, jitter) only enters the weights)
+    ref_f, ref_d = (Jf * (sg ** 2)[None, :]) @ Jf.T, (Jd * (sg ** 2)[None, :]) @ Jd.T
     msc = max(float(np.max(np.abs(ref_f))), 1e-300)
     dvf, dvd = float(np.max(np.abs(mf - ref_f))) / msc, float(np.max(np.abs(mx - ref_d))) / msc
     gapm = float(np.max(np.abs(ref_f - ref_d))) / msc
